@@ -444,24 +444,24 @@ def main():
     name="identifiers.pick_col_ident / pick_table_ident", call=_call_chain,
     ensures={c: _clause(c) for c in CLAUSES if c != "C21.batch_distinct_ci"},
     classify=_classify_single, nontrivial=_nontrivial_single)
-  fn.check(rep, single, single_cases, exhaustive=False, limit_quick_s=25)
+  fn.check(rep, single, single_cases, exhaustive=False, limit_quick_s=15)
 
   batch = fn.FnContract(
     name="identifiers.pick_col_ident_list", call=_call_batch,
     ensures={c: _clause(c) for c in CLAUSES}, classify=_classify_batch,
     nontrivial=lambda a, r, exc: len(a["idents"]) >= 2)
-  fn.check(rep, batch, batch_cases, exhaustive=False, limit_quick_s=15)
+  fn.check(rep, batch, batch_cases, exhaustive=False, limit_quick_s=10)
 
   pcn = fn.FnContract(
     name="useractions.UserActions._pick_col_name", call=_call_pcn,
     ensures={c: _clause(c) for c in CLAUSES if c != "C21.batch_distinct_ci"},
     classify=lambda a, clause, detail: "_pick_col_name:%s" % clause.split(".", 1)[1],
     nontrivial=lambda a, r, exc: r is not None and r.get("res") != a["col_id"])
-  fn.check(rep, pcn, pcn_cases, exhaustive=False, limit_quick_s=10)
+  fn.check(rep, pcn, pcn_cases, exhaustive=False, limit_quick_s=6)
 
   from vlib.rtc import explore
-  explore.explore(rep, "checks.C21", "IdentMonitor", n_quick=32, n_thorough=3000,
-                  budget_quick_s=10, budget_thorough_s=300)
+  explore.explore(rep, "checks.C21", "IdentMonitor", n_quick=16, n_thorough=3000,
+                  budget_quick_s=6, budget_thorough_s=300)
   # directed histories (fixed; found by the thorough tier, kept so that every run re-examines them)
   directed = [("summary", [[["RenameColumn", "A_summary", "count", "CAT"]]]),
               ("summary", [[["RenameColumn", "A", "tags", "New Col"]],
